@@ -7,6 +7,7 @@ import sys
 
 def main():
     verif, harness_seed, n, with_neg = sys.argv[1], int(sys.argv[2]), int(sys.argv[3]), sys.argv[4] == "1"
+    nan_seed = sys.argv[4] == "2"
     sys.path.insert(0, verif)
     from harness.gen_schema import SchemaGen
     from harness.common import d42  # noqa: F401
@@ -56,15 +57,21 @@ def main():
         schemas = cold + else_directed[:3] + schemas[: n // 2] + else_directed[3:] + schemas[n // 2:] + cold
     if with_neg:
         schemas = [schema.str.regex(r"[^a]{6}"), schema.str.regex(r"x[^0-9a-z]+"), schema.list(schema.str.regex(r"[^\w]")).len(3)]
+    seeds = (0, 7, 123456789, "seed", 3.5, b"d42-seed", bytearray(b"\x00\x01seed"), -5, 2 ** 70, "")
+    if nan_seed:
+        # the recorded finding K19: a NaN seed is hashed by object identity
+        schemas, seeds = [schema.int, schema.str.len(8), schema.list(schema.int).len(3)], (float("nan"),)
     out = {"schemas": [repr(s) for s in schemas], "runs": {}}
-    for k in (0, 7, 123456789, "seed", 3.5, b"d42-seed", bytearray(b"\x00\x01seed"), -5, 2 ** 70, ""):
+    for k in seeds:
         seqs = []
         for rep in range(2):
             if rep == 1:
                 between()       # whatever else the process does between two seeded runs must not matter
             Random().set_seed(k)
             vals = []
-            for s in schemas:
+            for i, s in enumerate(schemas):
+                if rep == 1 and i % 7 == 0:
+                    construct_only()    # objects merely CONSTRUCTED after seeding (and between fakes) draw nothing
                 try:
                     vals.append(repr(fake(s)))
                 except Exception as e:  # noqa: BLE001
@@ -96,6 +103,21 @@ def between():
         repr(schema.any(schema.int, schema.str.len(1, 2)))
     finally:
         _r.setstate(st)
+
+
+def construct_only():
+    """constructing the public classes (a second Random, generators, visitors, schemas) is not a draw"""
+    from d42 import schema
+    from d42.generation import Generator, Random, RegexGenerator
+    from d42.representation import Representor
+    from d42.substitution import Substitutor
+    from d42.validation import Validator
+    r = Random()
+    Generator(r, RegexGenerator(Random()))
+    RegexGenerator(Random(), alphabet={"digits": "01"}, max_repeat=7)
+    Validator(), Substitutor(), Representor()
+    schema.str.regex(r"[a-c]{2}").len  # noqa: B018
+    schema.list(schema.int).len(1, 3) | schema.dict({"a": schema.float.min(0.0)})
 
 
 def has_neg(s):
